@@ -153,10 +153,11 @@ pub fn k_list(ctx: &Ctx) -> Vec<usize> {
     let mut ks = vec![];
     if ctx.args.quick() {
         let mut rng = Rng::derive(ctx.seed(), 4, 0);
-        // all small K', a stratified sample of the rest, the largest
+        // every K' itself (a single wrong table row must not slip through), K'-1 / K'+1 for all
+        // small K' and a stratified sample of the rest
         for (i, &kp) in all.iter().enumerate() {
+            ks.push(kp);
             if kp <= 120 || i % 12 == (ctx.seed() % 12) as usize || kp == 56403 {
-                ks.push(kp);
                 if kp > 10 && rng.chance(1, 2) {
                     ks.push(kp - 1);
                 }
@@ -210,8 +211,14 @@ pub fn run(ctx: &Ctx) -> i32 {
         }
         let K = order[i];
         let mut rng = Rng::derive(ctx.seed(), 44, K as u64);
-        let T = if K > 20000 { *rng.pick(&[1usize, 2, 3]) } else { *rng.pick(&ts) };
-        let (nf, nr) = if K > 20000 { (10, 40) } else { (30, 200) };
+        let T = if K > 20000 {
+            *rng.pick(&[1usize, 2, 3])
+        } else if K <= 150 && i % 5 == 0 {
+            *rng.pick(&[4096usize, 20000, 40000, 65535]) // slabs of several MiB
+        } else {
+            *rng.pick(&ts)
+        };
+        let (nf, nr) = if K > 20000 { (10, 40) } else if ctx.args.quick() && K > 2000 { (12, 60) } else { (30, 200) };
         run_certified(ctx, &gf, K, T, rng.next(), nf, nr, &st);
         ctx.eval(1);
         if K <= 600 && (K <= 60 || !ctx.args.quick() || i % 3 == 0) {
@@ -232,7 +239,7 @@ pub fn run(ctx: &Ctx) -> i32 {
     ctx.floor("blocks_solved_fully_independently_(K'<=600)", st.independent.load(Relaxed), 20);
     ctx.floor("repair_symbols_compared", st.repair_cmp.load(Relaxed), 5000);
     ctx.finish(
-        "blocks of K symbols (quick: all K' <= 120, a stratified sample of the rest with K'-1/K'+1, 56403; thorough: every K', K'-1, K'+1) x T in {1,2,3,7,8,64,65} x random data; route (b): the encoder's intermediate symbols (hook H4) are certified against the reference model's LDPC, HDPC and LT relations (the encoding matrix is invertible, so they are the RFC's C), then every sampled repair packet (first 30, 200 uniform ESIs, the top 3, overflow-sensitive ESIs) must equal the reference Enc[K',C,Tuple[K',X+K'-K]] and source packet i must be source symbol i; route (a), K' <= 600: the reference model solves the constraint system itself by dense Gauss over GF(256) and encodes, no hook involved. non-trivial = one (K, ESI) repair comparison; distinct by (K, ESI, route)",
+        "blocks of K symbols (quick: every K' of Table 2 with K = K', plus K'-1/K'+1 for K' <= 120 and a stratified sample; thorough: every K', K'-1, K'+1) x T in {1,2,3,7,8,64,65} (and 4096..65535 for some K <= 150) x random data; route (b): the encoder's intermediate symbols (hook H4) are certified against the reference model's LDPC, HDPC and LT relations (the encoding matrix is invertible, so they are the RFC's C), then every sampled repair packet (first 30, 200 uniform ESIs, the top 3, overflow-sensitive ESIs) must equal the reference Enc[K',C,Tuple[K',X+K'-K]] and source packet i must be source symbol i; route (a), K' <= 600: the reference model solves the constraint system itself by dense Gauss over GF(256) and encodes, no hook involved. non-trivial = one (K, ESI) repair comparison; distinct by (K, ESI, route)",
         &["RFC data tables (V0..V3, Table 2, degree thresholds) from the golden copy frozen in /verif", "reference Rand/Deg/Tuple/Enc, LDPC/HDPC construction and GF(256) written from the RFC text in the harness"],
         vec![],
     )
